@@ -4,6 +4,7 @@ import (
 	"fmt"
 	"strings"
 	"testing"
+	"time"
 
 	"verifharness/hx"
 )
@@ -122,8 +123,10 @@ func TestC14(t *testing.T) {
 	e.flush()
 	canonical(e)
 	maxLen := run.Scale(2, 3)
+	t0 := time.Now()
 	n := exhaustive(e, maxLen)
 	e.flush()
+	run.Extra("exhaustive_seconds", time.Since(t0).Seconds())
 	run.Extra("exhaustive_cases", n)
 	run.Extra("exhaustive_max_requests", maxLen)
 	run.SetExhaustive(true)
@@ -143,7 +146,7 @@ func TestC14(t *testing.T) {
 	for _, g := range gens {
 		total += g.weight
 	}
-	nr := run.Scale(6000, 80000)
+	nr := run.Scale(6000, 40000)
 	for i := 0; i < nr && !e.stop(); i++ {
 		r := hx.NewRand(run.Seed, "C14", i)
 		pick := r.Intn(total)
